@@ -1394,7 +1394,8 @@ def cases(tier, seed):
             extra = (6 if n == 4 else 3) if thorough else (1 if n == 4 else 0)
             for _ in range(extra):
                 yield {"kind": "keyset", "keys": rng.sample(pool, n), "forms": forms, "fams": fams, "cli": thorough}
-    yield {"kind": "family_consistency"}
+    for part in range(8):  # (spread over the shards)
+        yield {"kind": "family_consistency", "part": part, "of": 8}
     yield {"kind": "cb_v1_zero_tail"}
     # directed witnesses (deterministic in every run): bytearray input and a CA `Certificate` object at every position
     for keys in (["rsa2048_0", "rsa2048_1"], ["p256_0", "p256_1", "p256_2", "p256_3"], ["p521_0", "p521_1"]):
@@ -1500,7 +1501,7 @@ def run_family_consistency(case, ctx) -> None:
     from spsdk.utils.database import DatabaseManager, get_device, get_families
 
     rng = ctx.rng
-    for fam in sorted(get_families(DatabaseManager.CERT_BLOCK)):
+    for fam in sorted(get_families(DatabaseManager.CERT_BLOCK))[case.get("part", 0)::case.get("of", 1)]:
         try:
             cls = CertBlock.get_cert_block_class(fam)
         except Exception:  # pylint: disable=broad-except
